@@ -649,6 +649,14 @@ impl<'s, M: Matcher, S: Sink> Core<'s, M, S> {
             if self.config.line_term.is_crlf() {
                 return false;
             }
+            // Same deal as above: the regex itself doesn't know about a NUL
+            // line terminator. (This is reached when the matcher declares no
+            // line terminator at all, e.g., for patterns with text anchors,
+            // which would then match differently depending on where a buffer
+            // happens to begin and end.)
+            if self.config.line_term.as_byte() == b'\x00' {
+                return false;
+            }
             if non_matching.contains(self.config.line_term.as_byte()) {
                 return true;
             }
